@@ -13,7 +13,7 @@ def parseCall (s : String) : Option Call :=
       let lo ← lo.toNat?
       let hi ← hi.toNat?
       let timed ← (if t = "t" then some true else if t = "u" then some false else none)
-      pure { lo := lo, hi := hi, timed := timed }
+      if hi < lo then none else pure { lo := lo, len := hi - lo, timed := timed }
   | _ => none
 
 def parseFin (s : String) : Option Fin :=
